@@ -79,6 +79,17 @@ Theorem C12_rejects_second_sort s a v1 b v2 c :
 Proof. exact (reject_second_sort s a v1 b v2 c). Qed.
 Print Assumptions C12_rejects_second_sort.
 
+(* all of the above in one statement, and its converse: the parser refuses a string exactly for one of these reasons
+   (M_field_quote and the empty case of M_separators cannot occur for a field cut out by the lexer; they are
+   kept so that the equivalence needs no further lemma) *)
+Theorem C12_rejects s : malformed s -> parse s = None.
+Proof. exact (rejects_sound s). Qed.
+Print Assumptions C12_rejects.
+
+Theorem C12_rejects_complete s : parse s = None -> malformed s.
+Proof. exact (rejects_complete s). Qed.
+Print Assumptions C12_rejects_complete.
+
 (* at the level of rendered queries: a value outside a closed vocabulary (status, no, sort) or a second sort *)
 Theorem C12_rejects_rendered its : wf_lex its = true ->
   (existsb (fun it => negb (wf_sem_item it)) its = true \/ (2 <= count_sort its)%nat) -> parse (render its) = None.
@@ -129,6 +140,13 @@ Print Assumptions C12_case_insensitive_name.
 Theorem C12_case_insensitive_title lower t t' b : lower_s lower t = lower_s lower t' -> f_title lower t b = f_title lower t' b.
 Proof. exact (ci_title lower t t' b). Qed.
 Print Assumptions C12_case_insensitive_title.
+
+(* full-text terms: any-of; a term is found in a bug when its words (cut at U+0020) occur in a row in one indexed text *)
+Theorem C12_search_spec q b : found q b = true <->
+  (q_search q = [] \/ exists t, In t (q_search q) /\ term_words t <> [] /\
+     exists text pre post, In text (b_texts b) /\ text = pre ++ term_words t ++ post).
+Proof. exact (found_spec q b). Qed.
+Print Assumptions C12_search_spec.
 
 (* ---- evaluation ---- *)
 
